@@ -153,6 +153,95 @@ func TestC10(t *testing.T) {
 		return false
 	}
 
+	// "contended" mode: operations on the SAME workload run concurrently under the serialising random scheduler
+	// (every meta.KV call of the etcd store, every plugin / engine / WAL call is a step)
+	w.cl.InstallKVShim()
+	sched := sim.NewSched(w.b, "kv", "rmgr", "engine", "wal")
+	defer sched.Close()
+	contendedRound := func(hc *histCase, topo *sim.Topology, i int) bool {
+		seq0 := w.b.Seq()
+		ids := w.model.Sorted()
+		if len(ids) == 0 {
+			op := sim.GenCreate(r, topo)
+			hc.Ops = append(hc.Ops, op)
+			w.exec(op, nil)
+			return true
+		}
+		target := ids[r.Intn(len(ids))]
+		k := 2 + r.Intn(2)
+		ops := []sim.Op{}
+		kinds := []string{}
+		for j := 0; j < k; j++ {
+			var op sim.Op
+			switch r.Intn(6) {
+			case 0, 1:
+				op = sim.Op{Kind: "remove", IDs: []string{target}}
+			case 2:
+				op = sim.Op{Kind: "dissociate", IDs: []string{target}}
+			case 3:
+				op = sim.Op{Kind: "realloc", IDs: []string{target}, Res: sim.Res{Keep: r.Intn(2) == 0, Bind: r.Intn(2) == 0, CPU: []float64{0, 0.25, -0.1}[r.Intn(3)], Memory: int64(r.Intn(3)-1) << 22}}
+			case 4:
+				op = sim.Op{Kind: "replace", IDs: []string{target}, App: "app", Entry: "web"}
+			default:
+				op = sim.Op{Kind: "control", IDs: []string{target}, Control: []string{"stop", "start"}[r.Intn(2)]}
+			}
+			ops = append(ops, op)
+			kinds = append(kinds, op.Kind)
+		}
+		sort.Strings(kinds)
+		hc.Ops = append(hc.Ops, ops...)
+		hc.FailedAt = i
+		w.cl.WaitQuiet(quietPatience)
+		w.b.Arm(nil)
+		sched.Enable(rand.New(rand.NewSource(r.Int63())))
+		var wg sync.WaitGroup
+		results := make([]*sim.Result, len(ops))
+		for j := range ops {
+			wg.Add(1)
+			w.opN++
+			go func(j int) {
+				defer wg.Done()
+				results[j] = w.cl.Exec(w.model, ops[j], fmt.Sprintf("x%d:%s", j, ops[j].Kind))
+			}(j)
+		}
+		wg.Wait()
+		w.cl.WaitQuiet(20 * time.Second)
+		trace := sched.Disable()
+		w.cl.WaitQuiet(quietPatience)
+		w.b.Disarm()
+		rec.Count("contended_rounds", 1)
+		rec.Count("contended_sched_steps", len(trace))
+		rec.SetAdd("contended_op_mixes", strings.Join(kinds, "+"))
+		for j, res := range results {
+			w.model.Apply(ops[j], res)
+			rec.Count("ops/"+ops[j].Kind, 1)
+			if res.TimedOut {
+				rec.Skip("operation stream did not close (reported under C12/C29)")
+				return false
+			}
+		}
+		// a replaced workload lives on under a new id the model learns from the result; drop ids that no longer exist
+		for id := range w.model.Live {
+			if _, err := w.cl.Raw.GetWorkload(ctx, id); err != nil {
+				delete(w.model.Live, id)
+			}
+		}
+		// finding key: the colliding pair that explains a mismatch, not every operation of the round
+		has := func(k string) bool {
+			for _, x := range kinds {
+				if x == k {
+					return true
+				}
+			}
+			return false
+		}
+		label := "contended:" + strings.Join(kinds, "+")
+		if has("replace") && (has("remove") || has("dissociate")) {
+			label = "contended:replace||remove-or-dissociate"
+		}
+		return judge(hc, label, "no-fault", seq0)
+	}
+
 	runHistory := func(mode string, nops int) {
 		topo := sim.GenTopology(r, true)
 		hc := &histCase{Topology: topo, Mode: mode}
@@ -192,6 +281,11 @@ func TestC10(t *testing.T) {
 				if !judge(hc, op.Kind, faultName(plan), seq0) {
 					return
 				}
+			case "contended":
+				if !contendedRound(hc, topo, i) {
+					return
+				}
+				interesting = true
 			case "concurrent":
 				k := 3 + r.Intn(6)
 				ops := []sim.Op{}
@@ -313,10 +407,13 @@ func TestC10(t *testing.T) {
 		nh = 3
 	}
 	for i := 0; i < nh; i++ {
-		mode := []string{"sequential", "single-fault", "single-fault", "concurrent"}[i%4]
+		mode := []string{"sequential", "single-fault", "contended", "concurrent", "single-fault", "contended"}[i%6]
 		n := 10 + r.Intn(env.Pick(20, 50))
 		if mode == "concurrent" {
 			n = 3 + r.Intn(4)
+		}
+		if mode == "contended" {
+			n = 8 + r.Intn(8)
 		}
 		runHistory(mode, n)
 	}
